@@ -68,5 +68,18 @@ func Specs() map[string]*PropSpec {
 		Assumptions: []string{"bank stub moves coins exactly as asked (conservation by construction)", "staking stub returns an arbitrary bonded amount", "legacy param subspace modelled as one typed blob", "LegacyDec theory (Mul/Quo with banker's rounding)"},
 		Stubs:       []string{"c13Bank", "c13Staking", "zzverif.MemStore", "zzverif param subspace"},
 	}
+	dk := func(fn string, kv ...string) Inst { return Inst{Pkg: "x/ucdao/keeper", Fn: fn, Params: pm(kv...)} }
+	m["C12"] = &PropSpec{
+		ID: "C12", Pkgs: []string{"./x/ucdao/keeper"},
+		Quick:    []Inst{dk("VerifC12_Fund", "accounts", "2"), dk("VerifC12_Transfer", "accounts", "2")},
+		Thorough: []Inst{dk("VerifC12_Fund", "accounts", "3"), dk("VerifC12_Transfer", "accounts", "3")},
+		Bounds: map[string]string{
+			"quick":    "one message (Fund / TransferOwnership / WithRatio / WithAmount, any signer and recipient incl. the same account) from an arbitrary ledger satisfying the invariant over 2 accounts x 2 denominations; balances, wallet funds in [0,2^100), message amounts any 256-bit integer (zero and negative entries included), ratio any Dec in [-1,2]",
+			"thorough": "same over 3 accounts x 2 denominations",
+		},
+		Outside:     []string{"more accounts or denominations than the bound (the step is proved from an arbitrary invariant state, so longer histories over the bounded universe are covered)", "state left by a failing message (rolled back by the SDK: stated, not proved)", "queries / pagination"},
+		Assumptions: []string{"bank stub moves coins exactly as asked and refuses overdrafts", "codec / math.Int.Marshal modelled as typed blobs", "SDK prefix.Store executed for real on the in-memory store"},
+		Stubs:       []string{"c12Bank", "zzverif.MemStore"},
+	}
 	return m
 }
